@@ -174,6 +174,11 @@ def part_seq(ck, h, vecs, layouts):
     for v in vecs:
         for L in layouts:
             jobs.append({"src": syn.render(v["r"], L), "langs": syn.LANGS, "valid": v["v"], "t": v["t"], "full": ck.tier == "thorough"})
+    if os.environ.get("VERIF_C08_CORRUPT"):
+        # development self-test: a corrupted expected tree must be noticed
+        for j in jobs[::40]:
+            if j["t"]["Stmts"]:
+                j["t"] = {"k": "File", "Stmts": j["t"]["Stmts"] + j["t"]["Stmts"][:1]}
     res = vlib.run_harness(h, "seq", jobs, shards=6, timeout=3000)
     seen = {}
     runs = spec = 0
@@ -242,6 +247,12 @@ def part_inter(ck, h, vecs, layouts):
                 uniq[key] = len(recs)
                 recs.append(dict(rec, id=len(recs)))
             members[uniq[key]].append((j, t))
+    if os.environ.get("VERIF_C08_CORRUPT"):
+        # development self-test: a corrupted recorded trace / annotation must be rejected by TLC
+        for rec in recs[::50]:
+            cbs = [e for e in rec["ev"] if e[0] == 1]
+            if cbs:
+                cbs[-1][2] ^= 1          # flip the Incomplete flag of the last callback
     ck.notes["interactive"] = {"sources": len(jobs), "traces": ntraces, "distinct_traces_sent_to_tlc": len(recs),
                                "variant_rejects_rendering": skipped, "unannotated": unann}
     if ntraces and unann > 0.05 * ntraces:
